@@ -89,6 +89,7 @@ func init() {
 			c.Floor("budget hand-overs to getBroadcasts in "+site.fn, nb, 1)
 		}
 		checkEncryptOverhead(c, "C11")
+		checkUnpadAcceptsPadding(c, "C11") // lossless for every encryption version: the receiver strips what the sender padded
 		// the raw sender encrypts exactly under the condition the budget assumed (or a weaker budget condition)
 		// and compression only replaces the payload when strictly shorter
 		rs := c.MustFunc("Memberlist.rawSendMsgPacket")
